@@ -124,16 +124,18 @@ pub fn check(r: &ExecResult, pol: Pol, direct: &[u32], chan_block: &[u32]) -> Ve
 pub fn scenarios(tier: Tier) -> Vec<Scenario> {
     let mut v = vec![];
     // racing family: producers race one stop(); afterwards every entry point is probed
+    // variant: 0 stop, 1 close+stop, 2 stop twice, 3 like 0 with the producers going through the
+    // Dispatcher interface (Dispatcher::dispatch on the handle)
     let mut add_race = |np: u32, k: u32, cap: usize, pol: Pol, with_chan: bool, variant: u8, bound: u32| {
         let mut prog = Program::new(StoreSpec::new(1, cap, pol));
-        prog = producers(prog, np, k, |_, id| Op::Dispatch(Act::new(id)));
+        prog = producers(prog, np, k, |_, id| if variant == 3 { Op::DispatchVia(Act::new(id)) } else { Op::Dispatch(Act::new(id)) });
         let mut main = vec![Op::AddSub { id: 1, gated: false, reads: false }];
         if with_chan {
             main.push(Op::Subscribed { id: 2, cap: 1, pol: Pol::Block, gated: false, reads: false });
         }
         main.push(Op::SpawnAll);
         match variant {
-            0 => main.push(Op::Stop),
+            0 | 3 => main.push(Op::Stop),
             1 => main.extend([Op::Close, Op::Stop]),
             _ => main.extend([Op::Stop, Op::Stop]),
         }
@@ -162,9 +164,12 @@ pub fn scenarios(tier: Tier) -> Vec<Scenario> {
             add_race(2, 1, 2, Pol::Block, true, 1, 2);
             add_race(1, 2, 2, Pol::Block, false, 2, 2);
             add_race(2, 1, 1, Pol::Oldest, true, 0, 2);
+            add_race(1, 3, 1, Pol::Block, false, 3, 2);
         }
         Tier::Thorough => {
             for pol in Pol::ALL {
+                add_race(1, 3, 1, pol, false, 3, 3);
+                add_race(2, 2, 1, pol, false, 3, 2);
                 for &(np, k) in &[(1u32, 1u32), (1, 2), (2, 1), (2, 2), (3, 1)] {
                     for &cap in &[1usize, 2] {
                         for &ch in &[false, true] {
